@@ -1,26 +1,421 @@
-//! C08: not implemented yet.
+//! C08: register allocation never clobbers a live value.
+//! Monitor (hook H3): the allocator hands every allocated function (virtual-register ops after
+//! coalescing and spilling + the virtual->machine register map) to the harness; an offline
+//! checker recomputes liveness with its own block-level backward data-flow and checks that no
+//! definition overwrites a machine register that holds another live virtual register, and
+//! that spill slots are private to one virtual register and lie inside the spill area.
 use crate::common::*;
+use crate::engine::*;
+use crate::swrun::*;
 use crate::{Plan, Prop};
+use serde_json::{json, Value};
+use std::cell::RefCell;
+use std::collections::{BTreeMap, BTreeSet, HashMap};
+use std::panic::AssertUnwindSafe;
+use std::rc::Rc;
 
 pub static META: PropertyMeta = PropertyMeta {
     id: "C08",
     level: "exploration",
-    rule: "not implemented",
-    assumptions: &[],
-    floor_evaluations: 1,
-    floor_nontrivial: 2,
-    required_counters: &[],
+    rule: "every function the register allocator processes while compiling SwGen programs (register-pressure mode weighted up; debug and release; std functions pulled in by the programs included): independent liveness + clobber check at every definition, spill-slot privacy and bounds; an evaluation = one allocated function; non-trivial = function with >= 8 virtual registers and >= 2 basic blocks, or with spills; distinct = hash of the function's op texts",
+    assumptions: &[
+        "the allocator's input (virtual ops) is taken as the program to preserve; def/use sets come from the harness's own table parsed from the printed op where the mnemonic is known, otherwise from the compiler (counted)",
+        "the behavioural half (allocated code behaves like the virtual-register program) is observed by C01's executions, whose register-pressure mode forces spills",
+    ],
+    floor_evaluations: 500,
+    floor_nontrivial: 100,
+    required_counters: &["definitions_checked", "functions_with_spills", "coalesced_or_plain_moves_seen", "max_live_set"],
 };
 
 pub static PROP: Prop = Prop {
     meta: &META,
-    plan: |_t| Plan { nshards: 1, budget_s: 1.0, mem_gib: 0 },
-    shard: |_ctx| {
-        let mut r = ShardResult::default();
-        r.harness_fault = Some("not implemented".into());
-        r
-    },
-    replay: crate::no_replay,
+    plan: |t| Plan { nshards: 16, budget_s: t.pick(55.0, 900.0), mem_gib: 6 },
+    shard,
+    replay,
     extra: crate::no_extra,
-    subcommand: crate::no_subcommand,
+    subcommand,
 };
+
+#[derive(Clone, Debug, serde::Serialize, serde::Deserialize)]
+pub struct Rec {
+    pub ops: Vec<String>,
+    pub comments: Vec<String>,
+    pub defs: Vec<Vec<String>>,
+    pub uses: Vec<Vec<String>>,
+    pub succs: Vec<Vec<usize>>,
+    pub mapping: Vec<(String, String)>,
+    pub allocated_ops: Vec<String>,
+}
+
+fn is_virtual(r: &str) -> bool {
+    // virtual registers print as $rN / $tmpN...; constant registers as $zero, $one, $$locbase, ...
+    !r.starts_with("$$") && !matches!(r, "$zero" | "$one" | "$of" | "$pc" | "$ssp" | "$sp" | "$fp" | "$hp" | "$err" | "$ggas" | "$cgas" | "$bal" | "$is" | "$ret" | "$retl" | "$flag" | "$ds" | "$cr" | "$ra")
+}
+
+/// Own def/use table for the common FuelVM mnemonics: (number of leading defined registers).
+/// Returns None for mnemonics the table does not know (the compiler's sets are used then).
+fn own_def_use(op: &str) -> Option<(Vec<String>, Vec<String>)> {
+    let text = op.split(';').next().unwrap_or(op).trim();
+    let mut parts = text.split_whitespace();
+    let mnem = parts.next()?;
+    let regs: Vec<String> = parts.filter(|p| p.starts_with('$')).map(|p| p.trim_end_matches(',').to_string()).collect();
+    let ndef = match mnem {
+        // rA <- f(rB, rC / imm)
+        "add" | "addi" | "and" | "andi" | "div" | "divi" | "eq" | "exp" | "expi" | "gt" | "lt" | "mlog" | "mod" | "modi" | "move" | "movi" | "mroo" | "mul" | "muli" | "not" | "or" | "ori" | "sll" | "slli" | "srl" | "srli" | "sub" | "subi" | "xor" | "xori" | "lw" | "lb" | "lqw" | "lhw" => 1,
+        // stores / memory ops / control: no register defined
+        "sw" | "sb" | "sqw" | "shw" | "mcp" | "mcpi" | "mcl" | "mcli" | "meq_" | "ret" | "retd" | "rvrt" | "log" | "logd" | "cfe" | "cfei" | "cfs" | "cfsi" | "aloc" | "noop" | "jmp" | "jne" | "ji" | "jnei" | "jnzi" => 0,
+        _ => return None,
+    };
+    if regs.len() < ndef {
+        return None;
+    }
+    let defs = regs[..ndef].to_vec();
+    let uses = regs[ndef..].to_vec();
+    Some((defs, uses))
+}
+
+pub struct CheckOut {
+    pub violations: Vec<(String, String)>,
+    pub defs_checked: u64,
+    pub max_live: u64,
+    pub spills: u64,
+    pub moves: u64,
+    pub own_table_ops: u64,
+    pub fallback_ops: u64,
+    pub table_disagreements: u64,
+    pub blocks: usize,
+    pub vregs: usize,
+}
+
+pub fn check(rec: &Rec) -> CheckOut {
+    let n = rec.ops.len();
+    let mut out = CheckOut { violations: vec![], defs_checked: 0, max_live: 0, spills: 0, moves: 0, own_table_ops: 0, fallback_ops: 0, table_disagreements: 0, blocks: 0, vregs: 0 };
+    let map: HashMap<&str, &str> = rec.mapping.iter().map(|(v, p)| (v.as_str(), p.as_str())).collect();
+    // dense ids for virtual registers
+    let mut ids: HashMap<String, usize> = HashMap::new();
+    let mut names: Vec<String> = vec![];
+    let mut defs: Vec<Vec<usize>> = vec![vec![]; n];
+    let mut uses: Vec<Vec<usize>> = vec![vec![]; n];
+    for i in 0..n {
+        let comp_d: BTreeSet<String> = rec.defs[i].iter().filter(|r| is_virtual(r)).cloned().collect();
+        let comp_u: BTreeSet<String> = rec.uses[i].iter().filter(|r| is_virtual(r)).cloned().collect();
+        let (d, u) = match own_def_use(&rec.ops[i]) {
+            Some((d, u)) => {
+                out.own_table_ops += 1;
+                let d: BTreeSet<String> = d.into_iter().filter(|r| is_virtual(r)).collect();
+                let u: BTreeSet<String> = u.into_iter().filter(|r| is_virtual(r)).collect();
+                if d != comp_d || u != comp_u {
+                    out.table_disagreements += 1;
+                    // the printed form may not show every operand; prefer the union so that nothing live is missed
+                    (d.union(&comp_d).cloned().collect::<BTreeSet<_>>(), u.union(&comp_u).cloned().collect::<BTreeSet<_>>())
+                } else {
+                    (d, u)
+                }
+            }
+            None => {
+                out.fallback_ops += 1;
+                (comp_d, comp_u)
+            }
+        };
+        for (set, dst) in [(d, &mut defs[i]), (u, &mut uses[i])] {
+            for r in set {
+                let id = *ids.entry(r.clone()).or_insert_with(|| {
+                    names.push(r.clone());
+                    names.len() - 1
+                });
+                dst.push(id);
+            }
+        }
+    }
+    let nv = names.len();
+    out.vregs = nv;
+    if n == 0 || nv == 0 {
+        return out;
+    }
+    // basic blocks: leaders = 0, successors of multi-succ/non-fallthrough ops, targets
+    let mut leader = vec![false; n];
+    leader[0] = true;
+    let mut preds_count = vec![0usize; n];
+    for i in 0..n {
+        for &s in &rec.succs[i] {
+            if s < n {
+                preds_count[s] += 1;
+                if s != i + 1 {
+                    leader[s] = true;
+                }
+            }
+        }
+        if rec.succs[i].len() != 1 || rec.succs[i].first() != Some(&(i + 1)) {
+            if i + 1 < n {
+                leader[i + 1] = true;
+            }
+        }
+    }
+    let mut block_of = vec![0usize; n];
+    let mut blocks: Vec<(usize, usize)> = vec![];
+    let mut start = 0;
+    for i in 1..=n {
+        if i == n || leader[i] {
+            blocks.push((start, i));
+            start = i;
+        }
+    }
+    for (b, (s, e)) in blocks.iter().enumerate() {
+        for i in *s..*e {
+            block_of[i] = b;
+        }
+    }
+    out.blocks = blocks.len();
+    let words = nv.div_ceil(64);
+    let nb = blocks.len();
+    let mut gen = vec![vec![0u64; words]; nb];
+    let mut kill = vec![vec![0u64; words]; nb];
+    for (b, (s, e)) in blocks.iter().enumerate() {
+        for i in (*s..*e).rev() {
+            for &d in &defs[i] {
+                kill[b][d / 64] |= 1 << (d % 64);
+                gen[b][d / 64] &= !(1 << (d % 64));
+            }
+            for &u in &uses[i] {
+                gen[b][u / 64] |= 1 << (u % 64);
+            }
+        }
+    }
+    let mut live_in = vec![vec![0u64; words]; nb];
+    let mut live_out = vec![vec![0u64; words]; nb];
+    let mut changed = true;
+    while changed {
+        changed = false;
+        for b in (0..nb).rev() {
+            let last = blocks[b].1 - 1;
+            let mut lo = vec![0u64; words];
+            for &s in &rec.succs[last] {
+                if s < n {
+                    let sb = block_of[s];
+                    for w in 0..words {
+                        lo[w] |= live_in[sb][w];
+                    }
+                }
+            }
+            let mut li = vec![0u64; words];
+            for w in 0..words {
+                li[w] = gen[b][w] | (lo[w] & !kill[b][w]);
+            }
+            if lo != live_out[b] || li != live_in[b] {
+                live_out[b] = lo;
+                live_in[b] = li;
+                changed = true;
+            }
+        }
+    }
+    // walk each block backwards with the running live set; check definitions
+    for (b, (s, e)) in blocks.iter().enumerate() {
+        let mut live = live_out[b].clone();
+        for i in (*s..*e).rev() {
+            // live here = live-out of op i
+            let cnt: u32 = live.iter().map(|w| w.count_ones()).sum();
+            out.max_live = out.max_live.max(cnt as u64);
+            let is_move = rec.ops[i].trim_start().starts_with("move ");
+            if is_move {
+                out.moves += 1;
+            }
+            for &d in &defs[i] {
+                out.defs_checked += 1;
+                let Some(pd) = map.get(names[d].as_str()) else {
+                    out.violations.push(("virtual-register-without-machine-register".into(), format!("op {i} `{}` defines {} which has no machine register", rec.ops[i], names[d])));
+                    continue;
+                };
+                for w in 0..nv {
+                    if w == d || live[w / 64] & (1 << (w % 64)) == 0 {
+                        continue;
+                    }
+                    if map.get(names[w].as_str()) == Some(pd) {
+                        // coalescing exception: `move d, w` may share the register of its source
+                        if is_move && uses[i].contains(&w) {
+                            continue;
+                        }
+                        out.violations.push((
+                            "live-register-clobbered".into(),
+                            format!("op {i} `{}` defines {} in {} while {} (same machine register) is live across it", rec.ops[i], names[d], pd, names[w]),
+                        ));
+                    }
+                }
+            }
+            for &d in &defs[i] {
+                live[d / 64] &= !(1 << (d % 64));
+            }
+            for &u in &uses[i] {
+                live[u / 64] |= 1 << (u % 64);
+            }
+        }
+    }
+    // spill slots
+    let mut slot_of: BTreeMap<String, BTreeSet<u64>> = BTreeMap::new();
+    let mut reg_of_slot: BTreeMap<u64, BTreeSet<String>> = BTreeMap::new();
+    let mut frame: Option<u64> = None;
+    let mut spill_bytes: u64 = 0;
+    for i in 0..n {
+        let text = rec.ops[i].trim();
+        if text.starts_with("cfei") {
+            frame = text.split_whitespace().filter_map(|t| t.trim_start_matches('i').parse::<u64>().ok()).last();
+            for part in rec.comments[i].split("register spills ").skip(1) {
+                if let Some(b) = part.split_whitespace().next().and_then(|x| x.parse::<u64>().ok()) {
+                    spill_bytes += b;
+                }
+            }
+        }
+        let c = &rec.comments[i];
+        if c.contains("[spill/refill]: spill") || c.contains("[spill/refill]: refill from spill") {
+            // sw $$locbase vX iN   |   lw vX $$locbase iN   (offset register may be $$tmp for far slots)
+            let toks: Vec<&str> = text.split_whitespace().collect();
+            if toks.len() >= 4 && toks.iter().any(|t| *t == "$$locbase") {
+                let v = toks.iter().skip(1).find(|t| t.starts_with('$') && is_virtual(t)).map(|s| s.to_string());
+                let off = toks.last().and_then(|t| t.trim_start_matches('i').parse::<u64>().ok());
+                if let (Some(v), Some(off)) = (v, off) {
+                    slot_of.entry(v.clone()).or_default().insert(off);
+                    reg_of_slot.entry(off).or_default().insert(v);
+                }
+            }
+        }
+    }
+    out.spills = slot_of.len() as u64;
+    for (slot, regs) in &reg_of_slot {
+        if regs.len() > 1 {
+            out.violations.push(("spill-slot-shared".into(), format!("spill slot {slot} (words from $$locbase) is used by {regs:?}")));
+        }
+        if let Some(f) = frame {
+            if slot * 8 + 8 > f {
+                out.violations.push(("spill-slot-outside-frame".into(), format!("spill slot {slot} lies outside the {f}-byte frame")));
+            }
+            if spill_bytes > 0 && slot * 8 + 8 + spill_bytes < f + 8 && slot * 8 < f.saturating_sub(spill_bytes).saturating_sub(7) {
+                out.violations.push(("spill-slot-overlaps-locals".into(), format!("spill slot {slot} lies below the spill area (frame {f}, spill bytes {spill_bytes})")));
+            }
+        }
+    }
+    for (v, slots) in &slot_of {
+        if slots.len() > 1 {
+            out.violations.push(("spilled-register-has-several-slots".into(), format!("{v} is spilled to slots {slots:?}")));
+        }
+    }
+    out
+}
+
+pub fn collect<T>(f: impl FnOnce() -> T) -> (T, Vec<Rec>) {
+    let recs: Rc<RefCell<Vec<Rec>>> = Rc::new(RefCell::new(vec![]));
+    let r2 = recs.clone();
+    sway_core::verif::set_regalloc_hook(Some(Box::new(move |r| {
+        r2.borrow_mut().push(Rec { ops: r.ops, comments: r.comments, defs: r.defs, uses: r.uses, succs: r.succs, mapping: r.mapping, allocated_ops: r.allocated_ops });
+    })));
+    struct G;
+    impl Drop for G {
+        fn drop(&mut self) {
+            sway_core::verif::set_regalloc_hook(None);
+        }
+    }
+    let _g = G;
+    let out = f();
+    drop(_g);
+    let v = recs.borrow().clone();
+    (out, v)
+}
+
+fn absorb(rec: &Rec, what: &str, res: &mut ShardResult, seen: &mut BTreeSet<u64>) {
+    let h = hash64(rec.ops.join("\n").as_bytes());
+    if !seen.insert(h) {
+        res.count("functions_seen_again_skipped");
+        return;
+    }
+    res.evaluations += 1;
+    let o = check(rec);
+    res.add("definitions_checked", o.defs_checked);
+    res.add("ops_own_table", o.own_table_ops);
+    res.add("ops_compiler_sets_fallback", o.fallback_ops);
+    res.add("own_table_vs_compiler_disagreements", o.table_disagreements);
+    res.add("coalesced_or_plain_moves_seen", o.moves);
+    res.max("max_live_set", o.max_live);
+    res.max("max_ops_in_function", rec.ops.len() as u64);
+    if o.spills > 0 {
+        res.count("functions_with_spills");
+        res.max("max_spilled_registers", o.spills);
+    }
+    if (o.vregs >= 8 && o.blocks >= 2) || o.spills > 0 {
+        res.note_nontrivial(h);
+    }
+    for (sig, desc) in o.violations.iter().take(3) {
+        res.violation(format!("{sig}"), format!("{what}: {desc}"), json!({"record": rec}));
+    }
+    if res.samples.is_empty() && o.spills > 0 {
+        res.sample(json!({"function_ops": rec.ops.len(), "virtual_registers": o.vregs, "blocks": o.blocks, "spilled": o.spills, "max_live": o.max_live, "first_ops": rec.ops.iter().take(12).collect::<Vec<_>>(), "mapping_sample": rec.mapping.iter().take(8).collect::<Vec<_>>()}));
+    }
+}
+
+fn shard(ctx: &ShardCtx) -> ShardResult {
+    let mut res = ShardResult::default();
+    let mut am = Amortised::new(&ctx.work());
+    if let Err(e) = am.warm() {
+        res.harness_fault = Some(format!("std does not compile: {e}"));
+        return res;
+    }
+    let mut seen = BTreeSet::new();
+    let clock = ctx.clock();
+    let mut i = ctx.first_index;
+    while clock.left() {
+        let mut rng = ctx.rng(i);
+        let mut scratch = ShardResult::default();
+        // weight the register-pressure mode up
+        let mode = if i % 3 == 0 { crate::swgen_gen::Mode::Pressure } else { crate::swgen_gen::Mode::pick(&mut rng) };
+        let case = make_case_mode(&mut rng, mode, 1, &mut scratch);
+        res.count(&format!("mode.{}", mode.name()));
+        for profile in Profile::BOTH {
+            ctx.begin_case(i, &format!("// C08 {} \n{}", profile.name(), case.src), &res);
+            let (r, recs) = collect(|| catch(AssertUnwindSafe(|| am.compile("gencase", &case.src, profile))));
+            ctx.end_case();
+            match r {
+                Ok(Ok(c)) => am.remove(&c),
+                _ => {
+                    res.count("rejected");
+                    let _ = std::fs::remove_dir_all(am.last_dir());
+                }
+            }
+            for rec in &recs {
+                absorb(rec, &format!("{} build of a generated program", profile.name()), &mut res, &mut seen);
+            }
+        }
+        i += 1;
+    }
+    res
+}
+
+fn replay(v: &Value) -> ShardResult {
+    let mut res = ShardResult::default();
+    match serde_json::from_value::<Rec>(v["record"].clone()) {
+        Ok(rec) => {
+            let mut seen = BTreeSet::new();
+            absorb(&rec, "replayed record", &mut res, &mut seen);
+        }
+        Err(e) => res.harness_fault = Some(format!("bad record: {e}")),
+    }
+    res
+}
+
+/// `swverif c08-dump <file.sw>`: print the allocator records of a program (triage helper)
+fn subcommand(args: &[String]) -> Option<i32> {
+    if args.first().map(|s| s.as_str()) != Some("c08-dump") {
+        return None;
+    }
+    let src = std::fs::read_to_string(&args[1]).expect("read");
+    let work = work_dir("c08dump");
+    clean_dir(&work);
+    let mut am = Amortised::new(&work);
+    let (_, recs) = collect(|| am.compile("gencase", &src, Profile::Debug));
+    // the last records belong to the program's own functions
+    for rec in recs.iter().rev().take(2) {
+        let o = check(rec);
+        println!("--- function: {} ops, {} vregs, {} blocks, spills {}, max live {}, own-table ops {}, fallback {}, disagreements {}, violations {:?}", rec.ops.len(), o.vregs, o.blocks, o.spills, o.max_live, o.own_table_ops, o.fallback_ops, o.table_disagreements, o.violations);
+        for (i, op) in rec.ops.iter().enumerate().take(60) {
+            println!("{i:4} {op:40} | {:40} | d={:?} u={:?} s={:?} ; {}", rec.allocated_ops.get(i).cloned().unwrap_or_default(), rec.defs[i], rec.uses[i], rec.succs[i], rec.comments[i]);
+        }
+        println!("mapping: {:?}", rec.mapping.iter().take(20).collect::<Vec<_>>());
+    }
+    Some(0)
+}
